@@ -40,8 +40,15 @@ Definition delete_range (cl : list text) (s e : nat) : list text * regcontent :=
 Definition yank_range (cl : list text) (s e : nat) : list text * regcontent :=
   (cl, RSpan (slice cl s e)).
 (** ... and over whole lines ([dd], [yy], [:d], [:y]) *)
+(** a line in a register always carries its line break: it is supplied for the
+    unterminated last line *)
+Definition with_newline (t : text) : text :=
+  match rev t with
+  | [] => []
+  | c :: _ => if c =? 10 then t else t ++ [10]
+  end.
 Definition delete_lines (cl : list text) (s e : nat) : list text * regcontent :=
-  let '(rest, removed) := drain cl s e in (rest, RLine removed).
+  let '(rest, removed) := drain cl s e in (rest, RLine (with_newline removed)).
 
 (** [insert_register_content] for a Span register at cluster index [i]; the
     inserted text becomes clusters of its own ([seg] re-segments it) *)
